@@ -72,6 +72,51 @@ def diverges_fn(ns, ref_outcome_cache):
     return diverges
 
 
+def read_probe_table(code, header, names):
+    if not header or code.count(header) != 1:
+        return None
+    off = code.index(header) + len(header)
+    out = {}
+    for k, nm in enumerate(names):
+        w = code[off + 4 * k: off + 4 * k + 4]
+        if len(w) < 4:
+            return None
+        out[nm.lower()] = ((w[0] | (w[1] << 8)) << 16) | (w[2] | (w[3] << 8))
+    return out
+
+
+def front_back_violations(case, obs, counters):
+    """First sentence of C03, for labels as well as constants: a reference placed before every
+    definition (probe table at the start of the file) yields the same value as a reference placed
+    after them (probe table at the end)."""
+    prog = getattr(case, "prog", None)
+    if prog is None or obs["status"] != "ok" or not obs.get("result"):
+        return []
+    if any(d[0] in ("error", "critical") for d in obs["diags"]):
+        return []
+    code = obs["result"][1]
+    for f in prog.files:
+        if f.has_end or not f.front_header or not f.probe_header:
+            continue
+        front = read_probe_table(code, f.front_header, f.front_order)
+        back = read_probe_table(code, f.probe_header, f.probe_order)
+        if front is None or back is None:
+            continue
+        for nm, v in front.items():
+            if nm in back:
+                counters["probe:forward_vs_backward_references_compared"] = counters.get("probe:forward_vs_backward_references_compared", 0) + 1
+                if back[nm] != v:
+                    return [{"key": "forward-backward-reference-differs",
+                             "what": "symbol %s of %s: a reference before its definition yields %o, a reference after it yields %o"
+                                     % (nm, f.path, v, back[nm]),
+                             "kind": "C03-probe", "charset": case.charset, "sources": [p for p, _ in case.sources],
+                             "files_original": dict(case.files), "files_moved": dict(case.files),
+                             "probe": {"file": f.path, "front_header": f.front_header, "front_order": f.front_order,
+                                       "back_header": f.probe_header, "back_order": f.probe_order},
+                             "schedule": [], "expected": {}}]
+    return []
+
+
 def violation_record(ns, case, sched, o0, ow, how):
     w = eb.witness_case(case, sched)
     moved = [case.defs[k]["name"] for k, _ in sched]
@@ -107,7 +152,7 @@ def run_one(ns, i, seed_i, tier):
     counters["probe:baseline_ok" if o0[0] == "ok" else ("probe:baseline_failed" if o0[0] == "failed" else "probe:baseline_crashed")] += 1
     if case.origin.startswith("practice"):
         counters["probe:practice_program"] += 1
-    violations = []
+    violations = front_back_violations(case, obs0, counters)
     nontrivial = []
     states = set()
     prog_digest = _digest(sorted(case.files.items()))
@@ -119,7 +164,7 @@ def run_one(ns, i, seed_i, tier):
         counters["skipped_expensive_program"] = 1
     budget_hits = 0
     sched_budget = max(400_000, 8 * obs0["forces"])
-    if case.defs and not expensive and o0[0] != "BUDGET":
+    if case.defs and not expensive and o0[0] != "BUDGET" and not violations:
         counters["probe:program_has_eligible_defs"] += 1
         nsched = (rng.randint(6, 24) if tier == "quick" else rng.randint(12, 40)) if case.origin == "gen" else (6 if tier == "quick" else 16)
         scheds = eb.make_schedules(rng, case, nsched)
@@ -189,6 +234,22 @@ def replay(ns, v):
     """Rebuild both source trees in pristine children and compare; no simulator knowledge needed."""
     from ..world import SIMROOT
     res = {"violations": []}
+    if v.get("kind") == "C03-probe":
+        files = v["files_original"]
+        sources = [(p, files[p].decode("utf-8")) for p in v["sources"]]
+        obs = eb.run_case(ns, eb.Case(sources, files, v.get("charset", "bk"), "replay"))
+        pr = v["probe"]
+        bad = []
+        if obs["status"] == "ok":
+            code = obs["result"][1]
+            front = read_probe_table(code, pr["front_header"], pr["front_order"])
+            back = read_probe_table(code, pr["back_header"], pr["back_order"])
+            if front and back:
+                bad = [(n, front[n], back[n]) for n in front if n in back and front[n] != back[n]]
+        print("replay C03 (forward vs backward references): status %s, differing symbols %s" % (obs["status"], bad[:3]))
+        if bad:
+            res["violations"].append({"key": v["key"], "what": v["what"]})
+        return res
     outs = {}
     for tag in ("files_original", "files_moved"):
         files = v[tag]
